@@ -158,7 +158,14 @@ fn run_item(it: &Item) -> Res {
     // ---------------- data-hash regions (only meaningful when the file already holds a manifest:
     // otherwise the handler reports positions inside a modified copy of the stream)
     let has_manifest = parsed.as_ref().map(|p| p.containers.len() == 1).unwrap_or(false);
-    if has_manifest && kit::box_map(it.format, &it.bytes).map(|m| m.is_some()).unwrap_or(false) {
+    // ... and only when the handler's own reader finds that manifest: get_object_locations_from_stream and
+    // read_cai share one parser per format, and when that parser sees no manifest (a hostile mutant it reads
+    // differently from the independent parser) the reported Cai is the placeholder of the modified copy again
+    let sdk_sees_manifest = has_manifest && kit::load(it.format, &it.bytes, true).is_ok();
+    if has_manifest && !sdk_sees_manifest {
+        r.counters.push((format!("unjudged:handler-reader-sees-no-manifest:{fam}"), 1));
+    }
+    if sdk_sees_manifest && kit::box_map(it.format, &it.bytes).map(|m| m.is_some()).unwrap_or(false) {
         match kit::locations(it.format, &it.bytes) {
             Err(e) if kit::is_panic(&e) => r.violations.push((format!("{fam}|panic-in-object-locations"), e)),
             Err(e) => r.counters.push((format!("unjudged:object-locations-error:{fam}:{e}"), 1)),
